@@ -445,6 +445,84 @@ pub fn run_c17(args: &Args) -> Report {
             }
         }
     }
+    // the guard of `main` vs its Lean model (Model/Cli.lean `entry`, theorem C17.refuses_to_start_iff_txtpp_file_set):
+    // values of TXTPP_FILE x command lines {build, -N, verify, clean}; and commands that start txtpp themselves
+    // (theorem C17.commands_cannot_recurse) at depth 0..2
+    if bin.exists() && args.shard == 0 {
+        use std::os::unix::ffi::OsStrExt;
+        let mut vals: Vec<Option<Vec<u8>>> = vec![None, Some(vec![]), Some(b" ".to_vec()), Some(b"\t".to_vec()), Some(b"0".to_vec()), Some(b"\n".to_vec()),
+            Some(b"g.txt.txtpp".to_vec()), Some(b"sub/dir/a.txtpp".to_vec()), Some("\u{e9}\u{4e16}".as_bytes().to_vec()), Some(vec![0xff]), Some(vec![b'a', 0xc3]),
+            Some(vec![b'x'; 5000])];
+        let mut rng = Rng::new(args.seed ^ 0x9a4d);
+        for _ in 0..(if args.thorough() { 40 } else { 8 }) {
+            let n = rng.below(6);
+            vals.push(Some((0..n).map(|_| *rng.pick(&[b' ', b'a', b'.', b'/', 0xc3, 0xa9, b'\\', b'"', b'$', 0x80])).collect()));
+        }
+        let reqs: Vec<String> = vals.iter().map(|v| match v {
+            None => "guard unset".to_string(),
+            Some(b) => match std::str::from_utf8(b) { Ok(_) => format!("guard {}", hex(b)), Err(_) => "guard notunicode".to_string() },
+        }).collect();
+        let answers = model.batch(&reqs);
+        let d = runner.dir.join("guard");
+        for (val, ans) in vals.iter().zip(answers.iter()) {
+            let want_start = match ans.trim() { "start" => true, "refuse" => false, other => { rep.violation("divergence", &format!("C17: guard request answered {:?}", other), "cfg: build true false 1\n"); continue; } };
+            for variant in 0..4 {
+                let _ = std::fs::remove_dir_all(&d);
+                std::fs::create_dir_all(&d).unwrap();
+                std::fs::write(d.join("g.txt.txtpp"), b"x\n").unwrap();
+                let mut c = Command::new(&bin);
+                c.current_dir(&d);
+                match variant {
+                    0 => { c.args(["-q", "g.txt.txtpp"]); }
+                    1 => { c.args(["-N", "-q", "g.txt.txtpp"]); }
+                    2 => { std::fs::write(d.join("g.txt"), b"x\n").unwrap(); c.args(["verify", "-q", "g.txt.txtpp"]); }
+                    _ => { std::fs::write(d.join("g.txt"), b"x\n").unwrap(); c.args(["clean", "-q", "g.txt.txtpp"]); }
+                }
+                match val {
+                    Some(v) => { c.env("TXTPP_FILE", std::ffi::OsStr::from_bytes(v)); }
+                    None => { c.env_remove("TXTPP_FILE"); }
+                }
+                // a NUL byte cannot be put into the environment; the generator has none
+                let o = c.output().expect("cli");
+                rep.evaluations += 1;
+                rep.count("guard-vs-lean-entry-model");
+                rep.sigs.insert(format!("guardm|{}|{variant}", ans.trim()));
+                let out_exists = d.join("g.txt").exists();
+                // what a started run does: build / needed create the output, verify succeeds leaving it, clean removes it
+                let started = match variant { 0 | 1 => o.status.success() && out_exists, 2 => o.status.success() && out_exists, _ => o.status.success() && !out_exists };
+                let refused = !o.status.success() && (out_exists == (variant >= 2));
+                if (want_start && !started) || (!want_start && !refused) {
+                    rep.violation("divergence", &format!("C17: txtpp started with TXTPP_FILE={:?} (command line variant {variant}: 0 build, 1 -N, 2 verify, 3 clean): exit success={}, g.txt exists afterwards={}; the Lean model of main's guard says {:?} - the binary must refuse to start exactly when TXTPP_FILE is set to a non-empty text, and otherwise run normally", val.as_ref().map(|b| String::from_utf8_lossy(&b[..b.len().min(40)]).to_string()), o.status.success(), out_exists, ans.trim()),
+                        &format!("# TXTPP_FILE bytes (hex) {:?}; variant {variant}; file g.txt.txtpp = \"x\\n\"\ncfg: build true false 1\n", val.as_ref().map(|b| hex(&b[..b.len().min(64)]))));
+                }
+            }
+        }
+        // a command that starts txtpp again (on another source next to it) must fail, and fail the outer build
+        for depth in 0..3usize {
+            for (vi, inner_args) in ["-q inner.txt.txtpp", "clean -q inner.txt.txtpp", "verify -q inner.txt.txtpp", "-q -N ."].iter().enumerate() {
+                let _ = std::fs::remove_dir_all(&d);
+                let mut sd = d.clone();
+                for k in 0..depth { sd = sd.join(format!("d{k}")); }
+                std::fs::create_dir_all(&sd).unwrap();
+                std::fs::write(sd.join("inner.txt.txtpp"), b"inner\n").unwrap();
+                // build variants would rewrite a stale output, verify would accept an up-to-date one, clean would remove it
+                let pre: &[u8] = if vi == 0 || vi == 3 { b"stale\n" } else { b"inner\n" };
+                std::fs::write(sd.join("inner.txt"), pre).unwrap();
+                std::fs::write(sd.join("outer.txt.txtpp"), format!("a\nTXTPP#run '{}' {inner_args} 2>/dev/null\nb\n", bin.display())).unwrap();
+                let o = Command::new(&bin).current_dir(&d).env_remove("TXTPP_FILE").arg("-q").arg(sd.strip_prefix(&d).unwrap().join("outer.txt.txtpp")).output().expect("cli");
+                rep.evaluations += 1;
+                rep.count("recursion-refused");
+                rep.sigs.insert(format!("recurse|{depth}|{vi}"));
+                // (a failing build may leave a partial outer.txt behind: that is not part of this property)
+                let inner_left = std::fs::read(sd.join("inner.txt")).map(|b| b == pre).unwrap_or(false);
+                if o.status.success() || !inner_left {
+                    rep.violation("oracle", &format!("C17: a run command that starts `txtpp {inner_args}` itself (source at depth {depth}): outer exit success={}, inner.txt left as it was={} - the inner txtpp must refuse to start (TXTPP_FILE is set), which fails the command and so the outer build", o.status.success(), inner_left),
+                        &format!("# depth {depth}; outer.txt.txtpp = \"a\\nTXTPP#run '<txtpp binary>' {inner_args} 2>/dev/null\\nb\\n\", inner.txt.txtpp = \"inner\\n\", inner.txt = {:?}; run: txtpp -q <dir>/outer.txt.txtpp from the base directory\ncfg: build true true 1\n", String::from_utf8_lossy(pre)));
+                }
+            }
+        }
+        let _ = std::fs::remove_dir_all(&d);
+    }
     std::env::set_current_dir(&orig_cwd).unwrap();
     rep.sample("depth 2, cwd unrelated, lib, wrapper shell, lines [\"printf '%s|'  x\", \"  \\\"two  spaces\\\"\", \"\", \"z\"] => shell argv [-c][printf '%s|'  x   \"two  spaces\"  z]".to_string());
     compare_all(&mut rep, &runner, &model, "C17", "C17.cmd_join_and_status, txtpp_file_designates, cwd_is_source_dir");
